@@ -134,6 +134,10 @@ class BootEngine(object):
             w.violate("B", "first datagram is not a bare start command "
                       "(cmd %d, %d payload bytes)" % (p[0][1], len(p[0][5])),
                       kind="start")
+        if p[0][2] or p[0][3]:
+            w.violate("B", "start command carries arguments %#x, %#x besides "
+                      "the block count" % (p[0][2], p[0][3]),
+                      kind="start-args")
         n = p[0][4] + 1
         blocks = p[1:-1]
         if len(blocks) != n:
@@ -150,13 +154,20 @@ class BootEngine(object):
             if (x[2] & 0xff) != i:
                 w.violate("B", "block %d is numbered %d" % (i, x[2] & 0xff),
                           kind="block-number")
+            # (the size field is that of a full block - 256 words, stored
+            # minus one - whatever the payload, and nothing else is set)
+            if x[2] >> 8 != 255 or x[3] or x[4]:
+                w.violate("B", "block %d carries size field %#x and "
+                          "arguments %#x, %#x; expected 0xff, 0, 0"
+                          % (i, x[2] >> 8, x[3], x[4]), kind="block-args")
             if len(x[5]) > 1024:
                 w.violate("B", "block %d carries %d bytes (> 1 KiB)"
                           % (i, len(x[5])), kind="block-size")
             out += x[5]
         if blocks and len(blocks[-1][5]) < 1024:
             w.probe("short_last_block")
-        if p[-1][1] != 5 or p[-1][2] != 1 or p[-1][5]:
+        if p[-1][1] != 5 or p[-1][2] != 1 or p[-1][5] or p[-1][3] or \
+                p[-1][4]:
             w.violate("B", "last datagram is not the end command (cmd %d, "
                       "arg1 %d)" % (p[-1][1], p[-1][2]), kind="end")
         if len(out) != len(image):
